@@ -1016,6 +1016,13 @@ def _register_families():
                             run=BoundedNative(nat_grad_coarse_even_grid("pbe" if "pbe" in tag else "lda,vwn", s=(9, 9, 11), unrestricted=unres, kmesh=km, species=sp), 1, tol=1e-6,
                                               what=f"slope of the total energy vs 2 Re<grad, D>: species {sp} (non-local projectors of two species), unrestricted = {unres}, kmesh = {km}"),
                             budget={"quick": 300, "thorough": 600}, doc="BOUNDED: derivative relation with non-local projectors of two different species (H against the non-local energy)"))
+    # channels with l >= 1 AND two or more projectors (Ca: s x 2, p x 2, d; Ge: s x 3, p x 2, d): the projector / m ordering of the stored columns matters
+    for tag, sp, unres, xc in (("nonlocal_Ca_lda", ("Ca",), False, "lda,vwn"), ("nonlocal_GeC_pbe_pol", ("Ge", "C"), True, "pbe")):
+        register(Obligation(name=f"C01.total_energy.slope_eq_2Re_grad_D.family.{tag}", prop="C01", engine="B", bounded=True,
+                            functions=["eminus.dft:get_grad", "eminus.dft:H", "eminus.gth:calc_Vnonloc", "eminus.energies:get_Enonloc", "eminus.gth:init_gth_nonloc"],
+                            run=BoundedNative(nat_grad_coarse_even_grid(xc, s=(9, 9, 11), unrestricted=unres, species=sp), 1, tol=1e-6,
+                                              what=f"slope of the total energy vs 2 Re<grad, D>: species {sp} (several projectors in channels with l >= 1), unrestricted = {unres}"),
+                            budget={"quick": 300, "thorough": 600}, doc="BOUNDED: derivative relation with several projectors per l >= 1 channel (coupled p projectors: ordering of the stored projector columns)"))
     for tag, xc, pot, unres, km in cases:
         # SCAN on the DEFAULT sampling (11, 11, 14): on a coarser one aliasing gives grid points with tau < |grad n|^2 / (8 n), where Libxc
         # clamps sigma to 8 n tau inside the functional (its derivatives are then not those of the clamped function: 2e-2 at (7, 7, 9),
@@ -1317,3 +1324,90 @@ _register_bounded3()
 _register_coarse()
 _register_families()
 _register_even_grid()
+
+
+# ------------------------------------------------------------------------------------------------
+# C11: the Hartree field / energy an SCF object stores belong to the density it stores
+# ------------------------------------------------------------------------------------------------
+
+
+def nat_stored_field(rng):
+    """After run() (stopped after a few steps; smeared and fixed fillings, one and two spin channels, one and two k-points, three schemes) the stored
+    scf.phi is the Hartree field of the stored scf.n and scf.energies.Ecoul = get_Ecoul(atoms, scf.n) = 1/2 int n phi[n]."""
+    import eminus
+    from eminus import SCF, Atoms
+    from eminus.dft import get_phi
+    from eminus.energies import get_Ecoul
+
+    eminus.config.backend = "numpy"
+    eminus.config.verbose = "critical"
+    worst = 0.0
+    for unres, opt, kmesh, smearing in ((False, {"pccg": 3}, [2, 1, 1], 5e-2), (False, {"auto": 4}, [1, 1, 2], 2e-2), (True, {"sd": 3}, [1, 1, 1], 1e-2),
+                                        (True, {"pccg": 4}, [2, 1, 1], 5e-2), (False, {"pccg": 3}, [1, 1, 1], 0), (False, {"lm": 2, "pccg": 2}, [1, 1, 1], 3e-2)):
+        at = Atoms(["Li", "Li"], [[0.1, 0.2, 0.3], [2.9, 3.1, 3.3]], ecut=4, a=[[6.5, 0.2, 0.0], [0.1, 6.0, 0.3], [0.0, 0.4, 6.2]], unrestricted=unres)
+        at.s = [9, 9, 9]
+        at.kpts.kmesh = kmesh
+        if smearing:
+            at.occ.smearing = smearing
+            at.occ.bands = 4
+        scf = SCF(at, xc="lda,vwn", guess="random", etol=1e-14, opt=opt, verbose="critical")
+        scf.run()
+        at = scf.atoms
+        n = np.asarray(scf.n)
+        ref = np.asarray(get_phi(at, scf.n))
+        e = float(np.abs(np.asarray(scf.phi) - ref).max() / max(1e-30, np.abs(ref).max()))
+        phir = np.real(np.asarray(at.I(get_phi(at, scf.n))))
+        E_int = 0.5 * float(np.sum(n * phir)) * float(at.Omega) / len(phir)
+        e = max(e, abs(float(scf.energies.Ecoul) - E_int) / abs(E_int), abs(float(get_Ecoul(at, scf.n)) - E_int) / abs(E_int))
+        worst = max(worst, e)
+    return worst
+
+
+register(Obligation(name="C11.scf.stored_field_and_energy_belong_to_stored_density", prop="C11", engine="B", bounded=True,
+                    functions=["eminus.minimizer:scf_step", "eminus.scf:SCF._precompute", "eminus.dft:get_phi", "eminus.energies:get_Ecoul"],
+                    run=BoundedNative(nat_stored_field, 1, tol=1e-10, what="stored scf.phi / Ecoul vs the field and Hartree energy of the stored scf.n after short runs (smeared / fixed fillings, spin, k-points)"),
+                    budget={"quick": 300, "thorough": 600},
+                    doc="BOUNDED: after run() the stored Hartree field solves the Poisson equation for the stored density and the stored Ecoul is 1/2 <n, phi[n]> (six short runs)"))
+
+
+def nat_grad_occ_ionic_coarse(rng):
+    """Fixed-Hamiltonian band energy with the IONIC Hamiltonian alone (kinetic + local + non-local; Hartree field and xc potential set to zero, so the
+    open finding about the complex Hartree / xc image on coarse even samplings does not enter): slope of the band energy at orthonormal W vs
+    2 Re<get_grad_occ, D>, coarse even sampling (6, 6, 8), atoms away from grid points, every built-in external potential, two spin channels, two k-points."""
+    import eminus
+    from eminus import SCF, Atoms
+    from eminus.band_minimizer import get_grad_occ, scf_step_occ
+    from eminus.dft import orth
+
+    eminus.config.backend = "numpy"
+    eminus.config.verbose = "critical"
+    worst = 0.0
+    for pot in ("gth", "coulomb", "lr", "harmonic", "ge"):
+        at = Atoms(["Li", "H"], [[0.31, 0.17, 0.23], [0.45, 1.1, 2.9]], ecut=4, a=[[6.0, 0.3, 0.1], [0.2, 6.5, 0.4], [0.5, 0.1, 7.0]], unrestricted=True)
+        at.s = [6, 6, 8]
+        at.kpts.kmesh = [2, 1, 1]
+        scf = SCF(at, pot=pot, verbose="critical")
+        at = scf.atoms
+        scf._precomputed = dict(dn_spin=None, phi=np.zeros(at.Ns, dtype=complex), vxc=np.zeros((2, at.Ns)), vsigma=None, vtau=None)
+        W0 = [np.asarray(w) for w in orth(at, [rnd(rng, 2, len(at.Gk2c[ik]), at.occ.Nstate) for ik in range(at.kpts.Nk)])]
+        D = [rnd(rng, *w.shape) for w in W0]
+        D = [d * np.linalg.norm(w) / np.linalg.norm(d) for w, d in zip(W0, D)]
+
+        def E(t, W0=W0, D=D, scf=scf):
+            return scf_step_occ(scf, [w + t * d for w, d in zip(W0, D)])
+
+        h = 1e-3
+        slope = (8 * (E(h) - E(-h)) - (E(2 * h) - E(-2 * h))) / (12 * h)
+        lin = 0
+        for ik in range(at.kpts.Nk):
+            for sp in range(2):
+                lin += 2 * np.real(np.sum(np.asarray(get_grad_occ(scf, ik, sp, W0, **scf._precomputed)).conj() * D[ik][sp]))
+        worst = max(worst, abs(slope - lin) / max(1.0, abs(slope)))
+    return worst
+
+
+register(Obligation(name="C01.band_energy.slope_eq_2Re_grad_occ_D.ionic_hamiltonian_coarse_even_grid", prop="C01", engine="B", bounded=True,
+                    functions=["eminus.band_minimizer:get_grad_occ", "eminus.dft:H", "eminus.gth:init_gth_loc", "eminus.potentials:coulomb", "eminus.potentials:ge", "eminus.potentials:harmonic"],
+                    run=BoundedNative(nat_grad_occ_ionic_coarse, 1, tol=2e-6, what="slope of the band energy vs 2 Re<get_grad_occ, D> with the ionic Hamiltonian alone, coarse even sampling, five external potentials"),
+                    budget={"quick": 300, "thorough": 600},
+                    doc="BOUNDED: band-energy derivative relation with the ionic part of H on a coarse even sampling with atoms off the grid (a complex local potential breaks it)"))
